@@ -498,6 +498,10 @@ func main() {
 	}
 	cases = append(cases, canonical()...)
 	cases = append(cases, canonicalPairs()...)
+	cases = append(cases, occCanonical(ck.Thorough())...)
+	if only == "" {
+		cases = append(cases, occSeeded(ck.Rand("occ"), 2, ck.Seed*1000+900)...)
+	}
 	if only != "" && only != "canonical" {
 		var f []runCase
 		for _, c := range cases {
@@ -614,6 +618,11 @@ func main() {
 			if o.PostCrash {
 				ck.Count("died_after_verify_returned", 1)
 			}
+			if cs.Class.Arch == "cdna3" && cs.Class.Timing && cs.Class.NGPU == 1 && o.Trace["max_wavefronts_per_launch"] > 480 {
+				ck.Count("timing_cdna3_anchors_with_two_wavefronts_per_simd", 1)
+			} else if cs.Occ {
+				ck.Inconclusive(fmt.Sprintf("occupancy anchor %s launched only %d wavefronts at once (needs > 480): recalibrate", cs.tripleKey(), o.Trace["max_wavefronts_per_launch"]))
+			}
 			need := int64(1 + len(cs.Extra))
 			if cs.isPair() {
 				ck.Count("multi_benchmark_runs_verified", 1)
@@ -683,7 +692,7 @@ func main() {
 			"vgg16 is linked but not run (dataset not shipped, cost)",
 		},
 		MinNontrivial: minNT,
-		MinCounters:   map[string]int64{"verified_runs": int64(minNT), "kernels_launched": int64(minNT), "d2h_commands": int64(minNT)},
+		MinCounters:   minCounters(minNT, only, ck.Thorough()),
 	})
 }
 
@@ -718,4 +727,18 @@ func replay(path string) {
 	}
 	cleanup()
 	os.Exit(0)
+}
+
+func minCounters(minNT int, only string, thorough bool) map[string]int64 {
+	mc := map[string]int64{"verified_runs": int64(minNT), "kernels_launched": int64(minNT), "d2h_commands": int64(minNT)}
+	if only == "" || only == "canonical" {
+		// cdna3 timing runs (mi300a, one GPU) whose traced launch geometry has
+		// > 480 wavefronts in one launch: some SIMD held two wavefronts at once
+		mc["timing_cdna3_anchors_with_two_wavefronts_per_simd"] = 6
+		if thorough {
+			mc["timing_cdna3_anchors_with_two_wavefronts_per_simd"] = 12
+		}
+		mc["multi_benchmark_runs_verified"] = 20
+	}
+	return mc
 }
